@@ -14,6 +14,7 @@ import (
 	"io"
 	"io/fs"
 	"os"
+	"os/exec"
 	"path/filepath"
 	"regexp"
 	"runtime"
@@ -22,6 +23,7 @@ import (
 	"strings"
 	"sync"
 	"sync/atomic"
+	"syscall"
 	"time"
 
 	"github.com/dapr/kit/concurrency/dir"
@@ -42,6 +44,11 @@ type c18Op struct {
 	Files []c18File `json:"files"`
 	Crash int       `json:"crash,omitempty"` // j >= 1: the logger panics at its j-th call of this Write
 	Fresh bool      `json:"fresh,omitempty"` // use a new Dir value (forced for the first call and after a crash)
+	// Child: the call is made by a CHILD PROCESS (a new Dir there); with Crash = j the child dies
+	// at its j-th log call — os.Exit, or SIGKILL when Kill is set — so no deferred function of
+	// Write runs, unlike the in-process crash (a recovered panic). The next call uses a new Dir.
+	Child bool `json:"child,omitempty"`
+	Kill  bool `json:"kill,omitempty"`
 }
 
 type c18Input struct {
@@ -49,8 +56,14 @@ type c18Input struct {
 	Pre  bool  `json:"pre,omitempty"`
 	// Alias: the caller keeps ONE map (and, where the lengths agree, the same byte slices) and
 	// updates it in place between the calls, as a rotation loop would
-	Alias bool    `json:"alias,omitempty"`
-	Ops   []c18Op `json:"ops"`
+	Alias bool `json:"alias,omitempty"`
+	// Path: how the target is spelled / where it lives. "" = clean absolute path below real
+	// directories; "symparent" / "symparent-rel" = below a directory reached through a symlink
+	// (absolute / relative link); "dotdot" = <base>/../<last>/tgt (needs Pre and a non-empty
+	// base); "unclean" = doubled separators and "." components; "relative" = relative to the
+	// working directory (which is the temp root).
+	Path string  `json:"path,omitempty"`
+	Ops  []c18Op `json:"ops"`
 }
 
 func keyName(k []int) string {
@@ -115,6 +128,111 @@ func runWrite(d *dir.Dir, files map[string][]byte) (err error, crashed bool, pan
 		}
 	}()
 	return d.Write(files), false, ""
+}
+
+// ---------------------------------------------------------------------------------------
+// crash of a real process: the harness binary re-executed as a child that makes ONE Write
+
+const childEnv = "VERIF_C18_CHILD"
+const childCrashExit = 77
+
+type childFile struct {
+	Name string `json:"name"`
+	Data []byte `json:"data"`
+}
+
+type childSpec struct {
+	Target  string      `json:"target"`
+	Files   []childFile `json:"files"`
+	CrashAt int         `json:"crash_at"`
+	Kill    bool        `json:"kill"`
+}
+
+type childReport struct {
+	Written  []string `json:"written"`
+	Returned bool     `json:"returned"`
+	Failed   bool     `json:"failed"`
+}
+
+type dyingLogger struct {
+	*crashLogger
+	kill bool
+}
+
+func (l *dyingLogger) Infof(f string, args ...interface{}) {
+	defer func() {
+		if r := recover(); r != nil {
+			if _, ok := r.(crashSignal); !ok {
+				panic(r)
+			}
+			_ = json.NewEncoder(os.Stdout).Encode(childReport{Written: l.written})
+			if l.kill {
+				_ = syscall.Kill(os.Getpid(), syscall.SIGKILL)
+				select {}
+			}
+			os.Exit(childCrashExit)
+		}
+	}()
+	l.crashLogger.Infof(f, args...)
+}
+
+func childMain(raw string) {
+	var sp childSpec
+	if err := json.Unmarshal([]byte(raw), &sp); err != nil {
+		fmt.Fprintln(os.Stderr, "c18 child:", err)
+		os.Exit(3)
+	}
+	files := map[string][]byte{}
+	lg := newCrashLogger()
+	lg.crashAt = sp.CrashAt
+	lg.names = map[string]bool{}
+	for _, f := range sp.Files {
+		files[f.Name] = f.Data
+		lg.names[f.Name] = true
+	}
+	d := dir.New(dir.Options{Log: &dyingLogger{crashLogger: lg, kill: sp.Kill}, Target: sp.Target})
+	err := d.Write(files) // a panic here ends the child with exit status 2
+	_ = json.NewEncoder(os.Stdout).Encode(childReport{Written: lg.written, Returned: true, Failed: err != nil})
+	os.Exit(0)
+}
+
+// runWriteChild: same contract as runWrite, plus the order in which the child reported the files
+func runWriteChild(target string, files map[string][]byte, crashAt int, kill bool) (err error, crashed bool, panicked string, written []string) {
+	sp := childSpec{Target: target, CrashAt: crashAt, Kill: kill}
+	for name, b := range files {
+		sp.Files = append(sp.Files, childFile{Name: name, Data: b})
+	}
+	self, e := os.Executable()
+	if e != nil {
+		return nil, false, "cannot find the harness binary: " + e.Error(), nil
+	}
+	cmd := exec.Command(self)
+	cmd.Env = append(os.Environ(), childEnv+"="+string(hx.MustJSON(sp)))
+	var stderr strings.Builder
+	cmd.Stderr = &stderr
+	out, runErr := cmd.Output()
+	var rep childReport
+	_ = json.Unmarshal(out, &rep)
+	died := false
+	if ee, ok := runErr.(*exec.ExitError); ok {
+		if ws, ok := ee.Sys().(syscall.WaitStatus); ok {
+			died = (ws.Exited() && ws.ExitStatus() == childCrashExit) || (ws.Signaled() && ws.Signal() == syscall.SIGKILL)
+		}
+	}
+	switch {
+	case runErr == nil && rep.Returned:
+		if rep.Failed {
+			err = errors.New("Write returned an error in the child")
+		}
+		return err, false, "", rep.Written
+	case died && crashAt > 0:
+		return nil, true, "", rep.Written
+	}
+	msg := stderr.String()
+	if len(msg) > 600 {
+		msg = msg[:600]
+	}
+	return nil, false, fmt.Sprintf("child process ended abnormally (%v): %s", runErr, msg), rep.Written
 }
 
 // ---------------------------------------------------------------------------------------
@@ -432,16 +550,55 @@ func c18Run(ctx *core.Ctx, in c18Input) error {
 	if root, err = filepath.EvalSymlinks(root); err != nil {
 		return err
 	}
+	// the logical root: what the model calls [] — the real temp directory, or a symlink to it
+	switch in.Path {
+	case "symparent", "symparent-rel":
+		realDir := filepath.Join(root, "real")
+		if err := os.Mkdir(realDir, 0o755); err != nil {
+			return err
+		}
+		content := realDir
+		if in.Path == "symparent-rel" {
+			content = "real"
+		}
+		if err := os.Symlink(content, filepath.Join(root, "lnk")); err != nil {
+			return err
+		}
+		root = filepath.Join(root, "lnk")
+	}
 	base := root
+	relBase := ""
 	for _, c := range in.Base {
 		base = filepath.Join(base, "n"+strconv.Itoa(c))
+		relBase = filepath.Join(relBase, "n"+strconv.Itoa(c))
 	}
 	if in.Pre {
 		if err := os.MkdirAll(base, 0o755); err != nil {
 			return err
 		}
 	}
-	target := filepath.Join(base, tgtName)
+	absTarget := filepath.Join(base, tgtName) // what the readers resolve
+	target := absTarget                       // what dir.New is given
+	switch in.Path {
+	case "dotdot":
+		if !in.Pre || len(in.Base) == 0 {
+			return fmt.Errorf("path=dotdot needs pre and a non-empty base")
+		}
+		target = base + "/../" + filepath.Base(base) + "/" + tgtName
+	case "unclean":
+		target = strings.ReplaceAll(base, "/", "//") + "/./" + tgtName
+	case "relative":
+		cwd, err := os.Getwd()
+		if err != nil {
+			return err
+		}
+		if err := os.Chdir(root); err != nil {
+			return err
+		}
+		defer os.Chdir(cwd)
+		target = filepath.Join(relBase, tgtName)
+	}
+	ctx.Sink.Count("path=" + map[bool]string{true: "plain", false: in.Path}[in.Path == ""])
 	cn := &canon{root: root, vers: map[string]int{}}
 
 	var d *dir.Dir
@@ -455,8 +612,10 @@ func c18Run(ctx *core.Ctx, in c18Input) error {
 	nontrivial := false
 	raced, rerrs := 0, 0
 	for i, op := range in.Ops {
-		fresh := op.Fresh || d == nil
-		if fresh {
+		fresh := op.Fresh || d == nil || op.Child
+		if op.Child {
+			d, lg = nil, newCrashLogger() // lg only carries the observation of the child
+		} else if fresh {
 			lg = newCrashLogger()
 			d = dir.New(dir.Options{Log: lg, Target: target})
 		}
@@ -498,9 +657,20 @@ func c18Run(ctx *core.Ctx, in c18Input) error {
 			facts["crash_after_symlink_then_write"] = true
 		}
 
-		rd := startReaders(target)
+		rd := startReaders(absTarget)
 		rd.waitSnapshots(1)
-		werr, crashed, panicked := runWrite(d, files)
+		var werr error
+		var crashed bool
+		var panicked string
+		if op.Child {
+			werr, crashed, panicked, lg.written = runWriteChild(target, files, op.Crash, op.Kill)
+			for _, name := range lg.written {
+				delete(lg.names, name)
+			}
+			ctx.Sink.Count("op/in_child_process")
+		} else {
+			werr, crashed, panicked = runWrite(d, files)
+		}
 		rd.waitSnapshots(1)
 		views := rd.finish()
 		raced += rd.raced
@@ -565,7 +735,14 @@ func c18Run(ctx *core.Ctx, in c18Input) error {
 		}
 		rel := relation(prevSet, byName)
 		prevSet = byName
-		shape = append(shape, fmt.Sprintf("n%d/%s/%v/%s/%s", len(files), kind, fresh, out, rel))
+		how := ""
+		if op.Child {
+			how = "/child"
+			if crashed && op.Kill {
+				how = "/killed"
+			}
+		}
+		shape = append(shape, fmt.Sprintf("n%d/%s/%v/%s/%s%s", len(files), kind, fresh, out, rel, how))
 		if i > 0 {
 			ctx.Sink.Count("op/vs_previous_set=" + rel)
 		}
@@ -599,6 +776,9 @@ func c18Run(ctx *core.Ctx, in c18Input) error {
 			pendingStale = pendingStale || kind == "symlink"
 			d, lg = nil, nil
 		}
+		if op.Child {
+			d, lg = nil, nil // the child's Dir value died with it
+		}
 		if i > 0 {
 			nontrivial = true
 		}
@@ -611,7 +791,7 @@ func c18Run(ctx *core.Ctx, in c18Input) error {
 		Input:    hx.MustJSON(in),
 		Observed: observed,
 		Facts:    facts,
-		Class:    fmt.Sprintf("b%d%v%v|", len(in.Base), in.Pre, in.Alias) + strings.Join(shape, "|"),
+		Class:    fmt.Sprintf("b%d%v%v%s|", len(in.Base), in.Pre, in.Alias, in.Path) + strings.Join(shape, "|"),
 		Trivial:  !nontrivial,
 		Coq:      fmt.Sprintf("Case %s %s %s", coqNs(in.Base), hx.CoqBool(in.Pre), hx.CoqList(opTerms)),
 	})
@@ -705,6 +885,22 @@ var c18Menu = [][][]int{
 	{{0}, {1}},
 	{{1}, {2}},
 	{{0}, {1}, {2}},
+}
+
+var c18PathModes = []string{"symparent", "symparent-rel", "dotdot", "unclean", "relative"}
+
+// a history on a target of the given path class (base and pre chosen as the class allows)
+func pathInput(pm string, r *hx.Rand, ops []c18Op) c18Input {
+	bases := [][]int{{}, {7}, {7, 8}}
+	in := c18Input{Base: bases[r.Intn(3)], Pre: r.Bool(), Path: pm, Ops: ops}
+	switch pm {
+	case "dotdot":
+		in.Base, in.Pre = bases[1+r.Intn(2)], true
+	case "relative":
+		// every base: since fix 7ccd02e dir.Write links a relative target by the base name of the
+		// version directory (before it, a relative target with a directory part was published dangling)
+	}
+	return in
 }
 
 func c18Gen(ctx *core.Ctx) {
@@ -801,6 +997,44 @@ func c18Gen(ctx *core.Ctx) {
 			run(c18Input{Base: bases[r.Intn(3)], Pre: r.Bool(), Alias: r.Bool(), Ops: ops})
 		}
 	}
+	// G. the death of a real process (no deferred function runs): a child process makes the
+	//    Write and exits / is SIGKILLed at every log point, as the first call or after a Write
+	//    of a live Dir; then recovery in this process with a new Dir, and one more call
+	for _, keys := range c18Menu {
+		for crash := 0; crash <= len(keys)+2; crash++ {
+			for _, kill := range []bool{false, true} {
+				if kill && crash == 0 {
+					continue
+				}
+				for _, after := range []bool{false, true} {
+					var ops []c18Op
+					if after {
+						ops = append(ops, c18Op{Files: mkFiles([][]int{{0}, {1}}, 0, nil)})
+					}
+					ops = append(ops,
+						c18Op{Files: mkFiles(keys, 1, nil), Crash: crash, Child: true, Kill: kill},
+						c18Op{Files: mkFiles([][]int{{0}, {2}}, 2, nil), Fresh: true},
+						c18Op{Files: mkFiles(keys, 3, nil), Child: r.Chance(1, 3)})
+					run(c18Input{Base: bases[r.Intn(3)], Pre: r.Bool(), Ops: ops})
+				}
+			}
+		}
+	}
+	// H. where the target lives and how it is spelled: below a symlinked parent directory
+	//    (absolute / relative link), with ".." / "." / doubled separators in the given path,
+	//    relative to the working directory — every set x every crash point, recovery, one more
+	for _, pm := range c18PathModes {
+		for _, keys := range c18Menu {
+			for crash := 0; crash <= len(keys)+2; crash++ {
+				ops := []c18Op{
+					{Files: mkFiles(keys, 0, nil), Crash: crash, Child: crash > 0 && r.Chance(1, 4)},
+					{Files: mkFiles([][]int{{0}, {2}}, 1, nil), Fresh: crash > 0 || r.Bool()},
+					{Files: mkStable(keys, func(int) int { return 0 })},
+				}
+				run(pathInput(pm, r, ops))
+			}
+		}
+	}
 	// C. random histories: 1..4 (sometimes up to 7) calls, random sets incl. unusable names;
 	//    half of them with stable contents (byte-identical or same-size-different files across
 	//    calls), a quarter with the caller's map updated in place
@@ -840,9 +1074,15 @@ func c18Gen(ctx *core.Ctx) {
 			if stable {
 				fl = mkStable(keys, func(int) int { return r.Intn(2) })
 			}
-			ops = append(ops, c18Op{Files: fl, Crash: crash, Fresh: r.Chance(1, 5)})
+			child := r.Chance(1, 8)
+			ops = append(ops, c18Op{Files: fl, Crash: crash, Fresh: r.Chance(1, 5), Child: child, Kill: child && r.Bool()})
 		}
-		run(c18Input{Base: bases[r.Intn(3)], Pre: r.Bool(), Alias: r.Chance(1, 4), Ops: ops})
+		in := c18Input{Base: bases[r.Intn(3)], Pre: r.Bool(), Ops: ops}
+		if r.Chance(1, 4) {
+			in = pathInput(c18PathModes[r.Intn(len(c18PathModes))], r, ops)
+		}
+		in.Alias = r.Chance(1, 4)
+		run(in)
 	}
 	// D. long runs of one Dir with occasional crashes: garbage collection over many versions,
 	//    many reader samples
@@ -865,6 +1105,10 @@ func c18Gen(ctx *core.Ctx) {
 }
 
 func main() {
+	if raw := os.Getenv(childEnv); raw != "" {
+		childMain(raw)
+		return
+	}
 	core.Main("c18", &core.Prop{
 		Header:   "From Kit Require Import C18.Check.",
 		CaseType: "case",
